@@ -241,7 +241,8 @@ def norm_ws(s):
 
 
 class FnEmitter:
-    def __init__(self, repo, srcfile, fnpath, mode, counts, info):
+    def __init__(self, repo, srcfile, fnpath, mode, counts, info, canary=False):
+        self.canary = canary
         self.repo = repo
         self.srcfile = srcfile
         self.fnpath = fnpath
@@ -393,6 +394,8 @@ class FnEmitter:
                 self.counts['R8'] = self.counts.get('R8', 0) + 1
             if inv:
                 edits.append((opn.start, opn.start, ('\n', inv, ''), 'block'))
+            if self.canary:
+                edits.append((opn.end, opn.end, ('\n', [('assert(false); // CANARY', {'k': 'canary', 'fn': key, 'where': 'loop%d' % li})], ''), 'block2'))
             st = block_text('at loop%d.start' % li)
             if st:
                 edits.append((opn.end, opn.end, ('\n', st, ''), 'block2'))
@@ -408,6 +411,8 @@ class FnEmitter:
             if af:
                 edits.append((cls.end, cls.end, ('\n', af, ''), 'block2'))
 
+        if self.canary:
+            edits.append((toks[bopen].end, toks[bopen].end, ('\n', [('assert(false); // CANARY', {'k': 'canary', 'fn': key, 'where': 'body'})], ''), 'block2'))
         st = block_text('at body.start')
         if st:
             edits.append((toks[bopen].end, toks[bopen].end, ('\n', st, ''), 'block2'))
@@ -576,7 +581,7 @@ def emit_macro(repo, out, srcfile, name, info):
     out.add(text, {'k': 'src', 'file': srcfile, 'line': lineno(src, item.start)})
 
 
-def build(unit, repo_root, diff=False):
+def build(unit, repo_root, diff=False, canary=False):
     upath = os.path.join(VERIF, 'units', unit + '.unit')
     repo = Repo(repo_root)
     out = Out()
@@ -611,9 +616,11 @@ def build(unit, repo_root, diff=False):
         elif cmd == 'macro':
             emit_macro(repo, out, parts[1], parts[2], info)
         elif cmd in ('prove', 'stub'):
-            FnEmitter(repo, parts[1], parts[2], cmd, counts, info).emit(out)
+            FnEmitter(repo, parts[1], parts[2], cmd, counts, info, canary=canary).emit(out)
         else:
             raise Undecided('bad unit directive: %s' % line)
+    if canary:
+        out.add('proof fn canary_global() { assert(false); } // CANARY', {'k': 'canary', 'fn': '<global>', 'where': 'axioms'})
     out.add('} // verus!', {'k': 'gen'})
     out.add('fn main() {}', {'k': 'gen'})
     info['rewrites'] = counts
@@ -627,9 +634,10 @@ def main():
     ap.add_argument('--repo', default='/repo')
     ap.add_argument('--out', default=None)
     ap.add_argument('--diff', action='store_true')
+    ap.add_argument('--canary', action='store_true')
     a = ap.parse_args()
     try:
-        out, info = build(a.unit, a.repo)
+        out, info = build(a.unit, a.repo, canary=a.canary)
     except Undecided as e:
         print('UNDECIDED %s' % e)
         sys.exit(2)
@@ -651,7 +659,7 @@ def main():
             for d in difflib.unified_diff(a_lines, b_lines, 'repo:' + f['fn'], 'generated:' + f['fn'], lineterm=''):
                 print(d)
         return
-    outp = a.out or os.path.join(VERIF, 'build', 'gen', a.unit + '.rs')
+    outp = a.out or os.path.join(VERIF, 'build', 'gen', a.unit + ('_canary' if a.canary else '') + '.rs')
     os.makedirs(os.path.dirname(outp), exist_ok=True)
     open(outp, 'w').write(out.text())
     json.dump({'info': info, 'origin': out.origin}, open(outp + '.map.json', 'w'))
